@@ -1,5 +1,5 @@
 // C01 harness: the real forward pipeline of the current /repo tree, in memory, on a generated sphere model.
-//   case   : c01 <id> <ndip> <nelec> <nmeg> | dipoles(6 each: position, moment)  electrodes(3 each)  squids(6 each: position, orientation)
+//   case   : c01 <id> <ndip> <nelec> <nmeg> [<api>] | dipoles(6 each: position, moment)  electrodes(3 each)  squids(6 each: position, orientation)
 //            geometry/conductivities are read from  m<id>.geom / m<id>.cond  in the working directory (written by checks/c01.py at 17 digits)
 //   result : <status> <nelec> <ndip> <nmeg> <headmat size> <mask of modified Gain* operands> | GainEEG (nelec x ndip, row major)  GainMEG (nmeg x ndip, row major)
 // Call sequence = apps/assemble.cpp + apps/minverser.cpp + apps/gain.cpp (GainEEG / GainMEG of gain.h).
@@ -39,6 +39,7 @@ static FWire c01(Reader& r,FReader& f) {
     for (size_t i=0;i<nelec;++i) for (unsigned k=0;k<3;++k) epos(i,k) = f.x();
     Matrix mpos(nmeg,3), mori(nmeg,3);
     for (size_t i=0;i<nmeg;++i) { for (unsigned k=0;k<3;++k) mpos(i,k) = f.x(); for (unsigned k=0;k<3;++k) mori(i,k) = f.x(); }
+    const ll api = r.done() ? 0 : r.z();            // optional 5th integer: 0 = invert() once (tools), 1 = inverse() per gain (API)
     if (!r.done() || !f.done()) throw Reader::Malformed();
 
     const std::string stem = "m"+std::to_string(id);
@@ -50,31 +51,59 @@ static FWire c01(Reader& r,FReader& f) {
 
     SymMatrix HM = HeadMat(geo);                      // om_assemble -HM
     const size_t hmsize = HM.nlin();
-    HM.invert();                                      // om_minverser
     const Matrix dsm = DipSourceMat(geo,dipoles,Integrator(3,10,0.001),"");   // om_assemble -DSM (adaptive, as the tool)
-    FWire out; out.z = Wire{ST_OK,(ll)nelec,(ll)ndip,(ll)nmeg,(ll)hmsize,0};   // last: bit mask of Gain* operands that were modified
+    FWire out; out.z = Wire{ST_OK,(ll)nelec,(ll)ndip,(ll)nmeg,(ll)hmsize,0};   // last: bit mask of operands that were modified
     ll dirty = 0;
-    const auto sHM = snap(HM); const auto sdsm = snap(dsm);
-    if (nelec>0) {
-        Vector ew(nelec), er(nelec); ew.set(1.0); er.set(0.0);
-        const Sensors electrodes(enames,epos,Matrix(),ew,er);
-        const SparseMatrix h2em = Head2EEGMat(geo,electrodes);                 // om_assemble -H2EM
-        const auto sh2em = snapsp(h2em);
-        const GainEEG G(HM,dsm,h2em);                                         // om_gain -EEG
-        if (G.nlin()!=nelec || G.ncol()!=ndip) throw std::runtime_error("GainEEG shape");
-        for (size_t i=0;i<nelec;++i) for (size_t j=0;j<ndip;++j) out.f.push_back(G(i,j));
-        if (!same(HM,sHM)) dirty |= 1; if (!same(dsm,sdsm)) dirty |= 2; if (!samesp(h2em,sh2em)) dirty |= 4;
-    }
-    if (nmeg>0) {
-        Vector mw(nmeg), mr(nmeg); mw.set(1.0); mr.set(0.0);
-        const Sensors squids(mnames,mpos,mori,mw,mr);
-        const Matrix h2mm  = Head2MEGMat(geo,squids);                          // om_assemble -H2MM
-        const Matrix ds2mm = DipSource2MEGMat(dipoles,squids);                 // om_assemble -DS2MM
-        const auto sh2mm = snap(h2mm); const auto sds2mm = snap(ds2mm);
-        const GainMEG G(HM,dsm,h2mm,ds2mm);                                   // om_gain -MEG
-        if (G.nlin()!=nmeg || G.ncol()!=ndip) throw std::runtime_error("GainMEG shape");
-        for (size_t i=0;i<nmeg;++i) for (size_t j=0;j<ndip;++j) out.f.push_back(G(i,j));
-        if (!same(HM,sHM)) dirty |= 1; if (!same(dsm,sdsm)) dirty |= 2; if (!same(h2mm,sh2mm)) dirty |= 8; if (!same(ds2mm,sds2mm)) dirty |= 16;
+    const auto sdsm = snap(dsm);
+    if (api==0) {
+        // the sequence of the command line tools: the head matrix is inverted in place once (om_minverser)
+        HM.invert();
+        const auto sHM = snap(HM);
+        if (nelec>0) {
+            Vector ew(nelec), er(nelec); ew.set(1.0); er.set(0.0);
+            const Sensors electrodes(enames,epos,Matrix(),ew,er);
+            const SparseMatrix h2em = Head2EEGMat(geo,electrodes);                 // om_assemble -H2EM
+            const auto sh2em = snapsp(h2em);
+            const GainEEG G(HM,dsm,h2em);                                         // om_gain -EEG
+            if (G.nlin()!=nelec || G.ncol()!=ndip) throw std::runtime_error("GainEEG shape");
+            for (size_t i=0;i<nelec;++i) for (size_t j=0;j<ndip;++j) out.f.push_back(G(i,j));
+            if (!same(HM,sHM)) dirty |= 1; if (!same(dsm,sdsm)) dirty |= 2; if (!samesp(h2em,sh2em)) dirty |= 4;
+        }
+        if (nmeg>0) {
+            Vector mw(nmeg), mr(nmeg); mw.set(1.0); mr.set(0.0);
+            const Sensors squids(mnames,mpos,mori,mw,mr);
+            const Matrix h2mm  = Head2MEGMat(geo,squids);                          // om_assemble -H2MM
+            const Matrix ds2mm = DipSource2MEGMat(dipoles,squids);                 // om_assemble -DS2MM
+            const auto sh2mm = snap(h2mm); const auto sds2mm = snap(ds2mm);
+            const GainMEG G(HM,dsm,h2mm,ds2mm);                                   // om_gain -MEG
+            if (G.nlin()!=nmeg || G.ncol()!=ndip) throw std::runtime_error("GainMEG shape");
+            for (size_t i=0;i<nmeg;++i) for (size_t j=0;j<ndip;++j) out.f.push_back(G(i,j));
+            if (!same(HM,sHM)) dirty |= 1; if (!same(dsm,sdsm)) dirty |= 2; if (!same(h2mm,sh2mm)) dirty |= 8; if (!same(ds2mm,sds2mm)) dirty |= 16;
+        }
+    } else {
+        // the sequence of a program written against the API (python wrapper style): the head matrix object is kept and its
+        // inverse is taken with the const method inverse() each time a gain is needed - EEG first, then MEG, same object
+        const auto sHM = snap(HM);
+        if (nelec>0) {
+            Vector ew(nelec), er(nelec); ew.set(1.0); er.set(0.0);
+            const Sensors electrodes(enames,epos,Matrix(),ew,er);
+            const SparseMatrix h2em = Head2EEGMat(geo,electrodes);
+            const GainEEG G(HM.inverse(),dsm,h2em);
+            if (!same(HM,sHM)) dirty |= 32;                                        // the const inverse() changed its receiver
+            if (G.nlin()!=nelec || G.ncol()!=ndip) throw std::runtime_error("GainEEG shape");
+            for (size_t i=0;i<nelec;++i) for (size_t j=0;j<ndip;++j) out.f.push_back(G(i,j));
+        }
+        if (nmeg>0) {
+            Vector mw(nmeg), mr(nmeg); mw.set(1.0); mr.set(0.0);
+            const Sensors squids(mnames,mpos,mori,mw,mr);
+            const Matrix h2mm  = Head2MEGMat(geo,squids);
+            const Matrix ds2mm = DipSource2MEGMat(dipoles,squids);
+            const GainMEG G(HM.inverse(),dsm,h2mm,ds2mm);
+            if (!same(HM,sHM)) dirty |= 32;
+            if (G.nlin()!=nmeg || G.ncol()!=ndip) throw std::runtime_error("GainMEG shape");
+            for (size_t i=0;i<nmeg;++i) for (size_t j=0;j<ndip;++j) out.f.push_back(G(i,j));
+        }
+        if (!same(dsm,sdsm)) dirty |= 2;
     }
     out.z[5] = dirty;
     return out;
